@@ -29,9 +29,7 @@ Definition equity_opening : str := [69;113;117;105;116;121;58;79;112;101;110;105
 (* ---- the model's book-keeping run ---- *)
 Definition model_process (acct : str) (opening : list (str * dec)) (ts : list stxn)
   : Book.outcome Book.bstate :=
-  fst (Book.process (funding str_code str_code acct equity_opening (-1)%Z
-                             (map (fun cv => (fst cv, dec_value (snd cv))) opening)
-                     ++ book_entries str_code str_code ts)).
+  fst (Book.process (book_entries str_code str_code (funding acct equity_opening (-1)%Z opening ++ ts))).
 
 Definition bk_kind (e : Book.bk_err) : N :=
   match e with
@@ -246,7 +244,7 @@ Definition spec_accepted (e : entry pat) (opening : list (str * dec)) (ts : list
 
 Definition spec_holds (e : entry pat) (c : case) (m : ires (list stxn)) : bool :=
   match q_imp c with
-  | ImpPanic => match m with IPanic => true | _ => false end    (* reported by C06; not a C16 verdict *)
+  | ImpPanic => false
   | ImpNotRun => false
   | ImpErr _ => match m with IErr _ => true | _ => false end
   | ImpOk ts =>
